@@ -60,8 +60,14 @@ PyLt(x, y) == IF TextLike(x) \/ TextLike(y) THEN Un
               ELSE IF x.t = "str" /\ y.t = "str" THEN Bv(LexLt(x.v, y.v))
               ELSE IF IsSeq(x) /\ x.t = y.t THEN Un
               ELSE Err
+\* [t |-> "tref", v |-> values] is what `Type.<t>` denotes: the values of all fields of that type, in field order.  A
+\* comparison with it on the LEFT is true at the first value for which the operator holds (an operator that raises on
+\* an earlier value raises).
+RECURSIVE Cmp(_, _, _), ScanTyped(_, _, _, _)
 Cmp(op, x, y) ==
-  IF Bad(x) \/ Bad(y) THEN Worst(x, y)
+  IF x.t = "tref" THEN (IF Bad(y) THEN y ELSE IF y.t = "tref" THEN Un ELSE ScanTyped(op, x.v, y, FALSE))
+  ELSE IF y.t = "tref" THEN Un
+  ELSE IF Bad(x) \/ Bad(y) THEN Worst(x, y)
   ELSE IF x.t = "missing" \/ y.t = "missing" THEN Bv(FALSE)                  \* C08: every comparison with a missing field is false
   ELSE IF x.t \in {"net", "cmd"} \/ y.t \in {"net", "cmd"} THEN Un             \* network arithmetic / command comparison are not modelled
   ELSE CASE op = "Eq"    -> Bv(PyEq(x, y))
@@ -78,6 +84,7 @@ Cmp(op, x, y) ==
                             ELSE IF IsSeq(y) THEN Bv(~\E i \in DOMAIN y.v : PyEq(x, y.v[i]))
                             ELSE Err
 Truth(x) == CASE Bad(x) -> x
+              [] x.t = "tref" -> Un
               [] x.t = "missing" -> Bv(FALSE)
               [] x.t = "bool" -> x
               [] x.t = "int" -> Bv(x.v # 0)
@@ -127,7 +134,6 @@ Helper(e, env) ==
 \* The matcher scans the values of all fields of that type in field order and is true at the first value for
 \* which the operator holds; an operator that raises on an earlier value (e.g. ordering with None) raises.
 \* env["$types"] maps field name -> type name; env["$order"] is the field order.
-RECURSIVE ScanTyped(_, _, _, _)
 ScanTyped(op, vals, other, swap) ==
   IF vals = <<>> THEN Bv(FALSE)
   ELSE LET v == Head(vals)
@@ -146,6 +152,8 @@ Ev(e, env) ==
   CASE e.k = "const" -> e.v
     [] e.k = "field" -> IF e.f \in DOMAIN env THEN env[e.f] ELSE Mi
     [] e.k = "var"   -> env["$x"]
+    [] e.k = "tref"  -> LET names == SelectSeq(env["$order"].v, LAMBDA f : env["$types"].v[f] = e.ty)
+                        IN [t |-> "tref", v |-> [i \in DOMAIN names |-> env[names[i]]]]
     [] e.k = "ctor"  -> [t |-> "net", v |-> e.arg]        \* a field-type constructor call: net.ipv4.Subnet('10.0.0.0/8'), net.ipnetwork(...)
     [] e.k = "tuple" -> LET xs == [i \in DOMAIN e.es |-> Ev(e.es[i], env)] IN
                         IF \E i \in DOMAIN xs : xs[i].t = "err" THEN Err ELSE IF \E i \in DOMAIN xs : xs[i].t = "unspec" THEN Un ELSE Tu(xs)
